@@ -8,6 +8,7 @@ import { createInterface } from "node:readline";
 import { readdirSync } from "node:fs";
 import { join } from "node:path";
 import { pathToFileURL } from "node:url";
+import { AsyncLocalStorage } from "node:async_hooks";
 
 const out = (o) => process.stdout.write(JSON.stringify(o) + "\n");
 const worlds = new Map(); // world -> { clients: {Svc: class}, routes: {Svc: factory}, errors: [] }
@@ -15,6 +16,12 @@ let pendingFetch = new Map(); // fid -> {resolve, reject}
 let pendingHandle = new Map(); // hid -> {resolve, reject}
 let controllers = new Map(); // call id -> AbortController
 let nextId = 1;
+// A server process creates its routes once and serves every request with them: route-level
+// state in generated code must be shared between the requests of a run, as it is in
+// production. The request a handler invocation belongs to travels in async-local storage.
+const als = new AsyncLocalStorage();
+let routeCache = new Map(); // world|svc|options -> routes (per run)
+let bodyStreams = new Map(); // sid -> ReadableStream controller of a request body still arriving
 
 const b64 = (u8) => Buffer.from(u8).toString("base64");
 const unb64 = (s) => new Uint8Array(Buffer.from(s ?? "", "base64"));
@@ -74,7 +81,8 @@ function makeHandler(world, svc, sid) {
         return new Promise((resolve, reject) => {
           const hid = nextId++;
           pendingHandle.set(hid, { resolve, reject });
-          out({ t: "handle", sid, hid, service: svc, method: prop, req, headers: ctx && ctx.headers, pathParams: ctx && ctx.pathParams });
+          const store = als.getStore();
+          out({ t: "handle", sid: store ? store.sid : sid, hid, service: svc, method: prop, req, headers: ctx && ctx.headers, pathParams: ctx && ctx.pathParams });
         });
       };
     },
@@ -160,6 +168,16 @@ function matchRoute(routes, method, pathname) {
   return hits;
 }
 
+function routesFor(world, w, svc, factory, serverOptions) {
+  const key = world + "|" + svc + "|" + JSON.stringify(serverOptions || {});
+  let routes = routeCache.get(key);
+  if (!routes) {
+    routes = factory(makeHandler(world, svc, null), serverOptions || {});
+    routeCache.set(key, routes);
+  }
+  return routes;
+}
+
 function serve(msg) {
   const w = worlds.get(msg.world);
   let hits = [];
@@ -167,7 +185,7 @@ function serve(msg) {
   try {
     const u = new URL(msg.url, "http://sim.test");
     for (const [svc, factory] of Object.entries(w ? w.routeFactories : {})) {
-      const routes = factory(makeHandler(msg.world, svc, msg.sid), msg.serverOptions || {});
+      const routes = routesFor(msg.world, w, svc, factory, msg.serverOptions);
       for (const r of matchRoute(routes, msg.method, u.pathname)) hits.push({ svc, r });
       for (const r of routes) { if (matchRoute([{ ...r, method: msg.method }], msg.method, u.pathname).length) anyPath = true; }
     }
@@ -180,7 +198,15 @@ function serve(msg) {
     return;
   }
   const init = { method: msg.method, headers: msg.headers };
-  if (msg.hasBody && msg.method !== "GET" && msg.method !== "HEAD") init.body = unb64(msg.body);
+  if (msg.hasBody && msg.method !== "GET" && msg.method !== "HEAD") {
+    if (msg.stream) {
+      // the body arrives piece by piece, when the kernel delivers it (bodyChunk / bodyEnd / bodyError)
+      init.body = new ReadableStream({ start(controller) { bodyStreams.set(msg.sid, controller); } });
+      init.duplex = "half";
+    } else {
+      init.body = unb64(msg.body);
+    }
+  }
   let req;
   try {
     req = new Request(new URL(msg.url, "http://sim.test").href, init);
@@ -189,7 +215,7 @@ function serve(msg) {
     return;
   }
   let p;
-  try { p = hits[0].r.handler(req); } catch (e) {
+  try { p = als.run({ sid: msg.sid }, () => hits[0].r.handler(req)); } catch (e) {
     out({ t: "served", sid: msg.sid, routed: true, service: hits[0].svc, threw: String(e && e.message ? e.message : e) });
     return;
   }
@@ -199,6 +225,16 @@ function serve(msg) {
     const body = new Uint8Array(await resp.arrayBuffer());
     out({ t: "served", sid: msg.sid, routed: true, service: hits[0].svc, status: resp.status, headers, body: b64(body) });
   }, (e) => out({ t: "served", sid: msg.sid, routed: true, service: hits[0].svc, threw: String(e && e.message ? e.message : e) }));
+}
+
+function bodyPiece(msg) {
+  const c = bodyStreams.get(msg.sid);
+  if (!c) return;
+  try {
+    if (msg.t === "bodyChunk") c.enqueue(unb64(msg.data));
+    else if (msg.t === "bodyEnd") { bodyStreams.delete(msg.sid); c.close(); }
+    else { bodyStreams.delete(msg.sid); c.error(new TypeError("request body: " + (msg.message || "connection lost"))); }
+  } catch (e) { /* stream already cancelled by the route */ }
 }
 
 function fetchResult(msg) {
@@ -231,6 +267,8 @@ function reset() {
   pendingFetch = new Map();
   pendingHandle = new Map();
   controllers = new Map();
+  routeCache = new Map();
+  bodyStreams = new Map();
 }
 
 const rl = createInterface({ input: process.stdin, crlfDelay: Infinity });
@@ -244,6 +282,7 @@ for await (const line of rl) {
       case "load": await load(msg); break;
       case "call": call(msg); break;
       case "serve": serve(msg); break;
+      case "bodyChunk": case "bodyEnd": case "bodyError": bodyPiece(msg); break;
       case "fetchResult": fetchResult(msg); break;
       case "handleResult": handleResult(msg); break;
       case "abort": { const c = controllers.get(msg.id); if (c) c.abort(); break; }
